@@ -266,6 +266,7 @@ func (ir *ifdReader) readMakerNotes(t Tag) {
 			buf, err := ir.fastRead(18)
 			if err != nil {
 				t.logTag(ir.logError(err)).Send()
+				return
 			}
 			if nikon.IsNikonMkNoteHeaderBytes(buf[:5]) {
 				ir.Exif.ImageType = imagetype.ImageNEF
